@@ -37,6 +37,12 @@ CHECKS = {
  "C17": dict(category="model_checking", technique="schedule exploration of concurrent GC requests (part b) and exhaustive argument x layout enumeration with the file-system mutation log as oracle (part a)",
    text="Part (b): two and three concurrent HStore.GC requests for one bucket, every interleaving with at most 2 preemptions (thorough 3); a pass is in progress from the acceptance of its request until its goroutine ends (observed by the scheduler); overlap of passes or acceptance inside that window is a violation. Part (a): all (start,end) in [-1..7]^2 x no_gc_days x merge x pretend over layouts of 1..6 data files with gaps, old/recent first-record timestamps and empty/unflushed/flushed head; the memfs mutation log gives the exact set of files written, truncated or removed, judged by the property's own rules.",
    note="The check-then-spawn defect found by part (b) was repaired (fix: 9594a5d). Bounds as stated.", design="4/C17"),
+ "C11": dict(category="model_checking", technique="exhaustive enumeration of client byte streams (scripts x every 2-segment split x every truncation) against the real server loop, reply-grammar + reference-map oracle",
+   text="Every script of up to 2 letters (thorough 3) over a 60-letter alphabet of well-formed, special-key, unsupported and malformed commands, followed by a probe; each delivered whole, in every 2-segment split and cut at every byte through ServerConn.ServeOnce on an in-memory connection backed by the real StorageClient on memfs. Output must parse with the harness's reply grammar; modeled commands get exactly the reference map's reply, one per command, in order, none for noreply; other well-formed commands exactly one valid reply; unsupported ones an error or an orderly close; after a malformed region the probe is answered last unless the connection was closed; cut streams yield replies for complete commands only; a second connection is unaffected. Panics and would-block token waits are violations.",
+   note="Error text/class of malformed commands not pinned; timeouts disabled by the virtual clock; accept loop not executed. The 17-hex-digit listing defect found here was repaired (fix: 7c17eae).", design="4/C11"),
+ "C12": dict(category="model_checking", technique="same exhaustive byte-stream enumeration as C11, invariant on tokens and buffer counters at quiescence",
+   text="The same scripts and delivery variants as C11 (values on both sides of body_c_str=64 and of the compression threshold); after each run and a forced flush the invariant is evaluated: all request tokens returned and GetData, SetData, FlushData, AllocRL count = size = 0; blocking on the token channel is detected structurally; freed C buffers are poisoned (MALLOC_PERTURB_) so that use-after-free shows as wrong reply bytes and double free aborts the worker.",
+   note="Connections are served one after the other. Four leak defects found here were repaired (fix: 3cebae9, 35abb36, 982f0fa, 9c75ee9).", design="4/C12"),
 }
 
 NOT_APPLICABLE = []
